@@ -11,17 +11,18 @@ Import ListNotations.
 Local Open Scope string_scope.
 Local Open Scope N_scope.
 
-Inductive mkind := KInsert | KDelete | KDropColl | KDropPart | KCreateColl | KCreatePart | KTick | KOther.
+Inductive mkind := KInsert | KDelete | KDropColl | KDropPart | KImport | KCreateColl | KCreatePart | KTick | KOther.
 Definition mkind_eqb (a b : mkind) : bool :=
   match a, b with
   | KInsert, KInsert | KDelete, KDelete | KDropColl, KDropColl | KDropPart, KDropPart | KCreateColl, KCreateColl
-  | KCreatePart, KCreatePart | KTick, KTick | KOther, KOther => true
+  | KCreatePart, KCreatePart | KTick, KTick | KOther, KOther | KImport, KImport => true
   | _, _ => false
   end.
-Definition supported (k : mkind) : bool := match k with KInsert | KDelete | KDropColl | KDropPart => true | _ => false end.
+Definition supported (k : mkind) : bool := match k with KInsert | KDelete | KDropColl | KDropPart | KImport => true | _ => false end.
 
 (* a source message: harness id, source collection / partition ids, partition name, time, number of rows *)
-Record smsg := { m_kind : mkind; m_id : N; m_coll : Z; m_part : Z; m_pname : string; m_ts : N; m_rows : nat }.
+Record smsg := { m_kind : mkind; m_id : N; m_coll : Z; m_part : Z; m_pname : string; m_ts : N; m_rows : nat;
+                 m_pospch : bool (* the source position names the physical channel, not the virtual one *) }.
 Record spack := { p_begin : N; p_end : N; p_starts : list N; p_msgs : list smsg }.
 
 (* an emitted message *)
@@ -199,10 +200,43 @@ Definition part_lookup (retries : nat) (a : acc) (c : Z) (r : trec) (pid : Z) (n
                a_ans := rest; a_cname := a_cname a |}, r')
   end.
 
+(* getPartitionIDs of an import message: the message is forwarded with the downstream's partition ids when the downstream has
+   as many partitions as the message names; otherwise the partition map is refreshed ([retries] attempts, a failed call leaves
+   the map as it was) and the pack is an error if the counts still differ *)
+Fixpoint refresh_count (fuel : nat) (answers : list (option pmap)) (count : nat) (cur : pmap) : bool * list (option pmap) * option pmap :=
+  match fuel with
+  | O => (false, answers, None)
+  | S f =>
+      match answers with
+      | [] => match refresh_count f [] count cur with (ok, a, m) => (ok, a, m) end
+      | a :: rest =>
+          let cur' := match a with Some m => m | None => cur end in
+          if Nat.eqb (List.length cur') count then (true, rest, a)
+          else match refresh_count f rest count cur' with
+               | (ok, rest', m') => (ok, rest', match m' with Some _ => m' | None => a end)
+               end
+      end
+  end.
+Definition import_lookup (retries : nat) (a : acc) (c : Z) (r : trec) (count : nat) : pres * acc * trec :=
+  let s := a_st a in
+  if Nat.eqb (List.length (heap_get s (t_parts r))) count then (PFound 0, a, r)
+  else
+      let '(ok, rest, newmap) := refresh_count retries (a_ans a) count (heap_get s (t_parts r)) in
+      let '(hp, r') := match newmap with
+                       | Some m => let ref := fresh_ref (heap s) in
+                                   ((heap s ++ [(ref, m)])%list,
+                                    {| t_tcoll := t_tcoll r; t_name := t_name r; t_tvch := t_tvch r; t_tpch := t_tpch r; t_parts := ref;
+                                       t_dropped := t_dropped r; t_dropping := t_dropping r; t_barw := t_barw r; t_pbars := t_pbars r |})
+                       | None => (heap s, r) end in
+      let s' := upd_state s (dcolls s) (dparts s) hp (cbars s) (pbars s) (events s) in
+      (if ok then PFound 0 else PErr,
+       {| a_st := s'; a_h := set_rec (a_h a) c r'; a_first := a_first a; a_out := a_out a; a_need := a_need a; a_fwd := a_fwd a;
+          a_ans := rest; a_cname := a_cname a |}, r').
+
 Definition mk_emsg (m : smsg) (r : trec) (pid : Z) : emsg :=
   {| e_kind := m_kind m; e_id := m_id m; e_coll := t_tcoll r; e_part := pid; e_pname := m_pname m;
      e_shard := match m_kind m with KInsert | KDelete => t_tvch r | _ => "" end;
-     e_poschan := t_tvch r; e_ts := m_ts m; e_posts := m_ts m; e_rows := m_rows m |}.
+     e_poschan := if m_pospch m then t_tpch r else t_tvch r; e_ts := m_ts m; e_posts := m_ts m; e_rows := m_rows m |}.
 
 (* appending a message: the forward / not-forward decision of handlePack *)
 Definition append (a : acc) (r : trec) (e : emsg) : acc :=
@@ -288,6 +322,12 @@ Definition one_msg (retries : nat) (a : acc) (m : smsg) : cres :=
                                    | (PSkip, a', _) => COk a'
                                    | (PErr, a', _) => err a'
                                    end
+                          end
+                 | KImport =>
+                     if t_dropped r then COk a
+                     else match import_lookup retries a c0 r (m_rows m) with
+                          | (PFound _, a', r') => COk (append a' r' (mk_emsg m r' 0))
+                          | (_, a', _) => err a'
                           end
                  | _ => COk a
                  end
